@@ -594,7 +594,8 @@ class Bits:
 
     def _setbits(self, bs: BitsType, length: None = None) -> None:
         bs = Bits._create_from_bitstype(bs)
-        self._bitstore = bs._bitstore
+        # Share the storage only if it is immutable, otherwise take a copy.
+        self._bitstore = bs._bitstore.copy()
 
     def _setp3binary(self, f: float) -> None:
         self._bitstore = bitstore_helpers.p3binary2bitstore(f)
